@@ -215,6 +215,7 @@ func c15oracle(c *C, outs []*BOutcome, err error) {
 			c15mask(s.Ops, exp)
 			bad, msg, compared, unspec := CompareSession(exp, res)
 			c.Count("transitions")
+			c.Count("evaluations_override")
 			c.Add("ops_compared", int64(compared))
 			for _, r := range res {
 				if r.V != nil && r.V["t"] == "state" {
